@@ -25,6 +25,8 @@ PROGRAMS = {
     'labels': 'start:\n  li x9, 1\n  addi x8, x8, 1\nloop:\n  beq x8, x0, done\n  call start\n  align 8\nmid:\n  j loop\ndone:\n  ret\nend:\n',
     'inc': 'include lib.asm\nmain:\n  addi x8, x8, LIBK\n  j libf\n',
     'defs': 'include GD32VF103.asm\nboot:\n  li t0, RCU_BASE_ADDR\n  sw t0, t0, 0\n',
+    # a valid program with an intermediate constant of more decimal digits than str() converts (the -v listing prints every constant)
+    'bigconst': 'BIG = 1 << 20000\nSMALL = BIG >> 19998\nstart:\n  addi x8, x8, SMALL\n  dw SMALL + 1\n',
 }
 LIB = 'LIBK = 7\nlibf:\n  addi x9, x9, 2\n'
 NATURAL = {     # naturally failing programs, one for every pass that can fail
